@@ -1264,7 +1264,10 @@ def accumulating_loops(ctx):
             acc = [c for c in f.calls(lambda r: r['block'] in body and r['path'] and (ACCUM.search(r['path']) or ACCUM.search(r.get('gpath') or '')))]
             # calls of the crate's own functions that take `&mut` state count too (the per-item work is done in a helper)
             acc += [c for c in f.calls(lambda r: r['block'] in body and r['path'] in P.fns and any(str(t_).startswith('&mut ') for t_ in P.fns[r['path']].raw.get('inputs', [])))]
-            if not acc:
+            # ... and so do calls of closures (`add_functions(..)`), and loops that check every element (an Err exit in the body)
+            acc += [c for c in f.calls(lambda r: r['block'] in body and r['path'] and re.search(r'ops::(FnMut|Fn|FnOnce)::call(_mut|_once)?$', r['path']))]
+            checks = any(s_ not in body and f.exit_kinds_from(s_) and f.exit_kinds_from(s_) <= {'err_own', 'err_prop'} for b in body for s_ in f.succ(b))
+            if not acc and not checks:
                 continue
             n += 1
             bad = []
@@ -1273,7 +1276,7 @@ def accumulating_loops(ctx):
                     if s_ in body:
                         continue
                     sw = [x for x in f.switches() if x['block'] == b]
-                    exhaust = bool(sw) and sw[0]['cond'][0] == 'discr' and any(isinstance(y, tuple) and y and y[0] == 'call' and str(y[3]).endswith('Iterator::next') for y in walk(sw[0]['cond']))
+                    exhaust = bool(sw) and sw[0]['cond'][0] == 'discr' and strip(sw[0]['cond'][1])[0] == 'call' and str(strip(sw[0]['cond'][1])[3]).endswith('Iterator::next')
                     if exhaust:
                         continue
                     ks = f.exit_kinds_from(s_)
